@@ -287,6 +287,9 @@ func violationConfirmed(v *symgo.Violation, r replayResult) bool {
 		return strings.HasPrefix(r.Result, "fatal:") || r.Result == "timeout" || r.Result == "crash"
 	case "nontermination":
 		return r.Result == "timeout"
+	case "alloc":
+		// natively: makeslice panics, the runtime dies of memory exhaustion, or the driver measured the allocation
+		return strings.HasPrefix(r.Result, "panic:") || strings.HasPrefix(r.Result, "fatal:") || r.Result == "crash" || strings.Contains(r.Result, "alloc>2^20")
 	}
 	return false
 }
